@@ -47,11 +47,11 @@ pub fn list_sizes(thorough: bool) -> Vec<Vec<usize>> {
 pub const SCHEDULES: [&[bool]; 4] = [&[false], &[true, false], &[true, true, false], &[true, true, true]];
 
 /// what = 0: configure (list ignored), 1: send_pages(list)
-pub fn check_conv(type_idx: usize, addr: u16, what: usize, sizes: &[usize], sched: usize, seed: u64, nack: Option<(usize, u8)>) -> (String, Vec<V>) {
+pub fn check_conv(type_idx: usize, addr: u16, what: usize, sizes: &[usize], sched: usize, seed: u64, nack: Option<(usize, u8)>, stray: Option<usize>) -> (String, Vec<V>) {
     let typ = SIGN_TYPES[type_idx].0;
     let own = Address(addr);
     let schedule = SCHEDULES[sched].to_vec();
-    let bus = Rc::new(RefCell::new(RespBus { own, schedule: schedule.clone(), transfers_seen: 0, in_transfer: None, count_seen: false, sent: vec![], replies: vec![], keep_data: true, nack, requests_seen: 0 }));
+    let bus = Rc::new(RefCell::new(RespBus { own, schedule: schedule.clone(), transfers_seen: 0, in_transfer: None, count_seen: false, sent: vec![], replies: vec![], keep_data: true, nack, requests_seen: 0, stray_reply_to_chunk: stray, chunks_seen: 0 }));
     let dynbus: Rc<RefCell<dyn SignBus>> = bus.clone();
     let pages: Vec<Page<'static>> = sizes.iter().enumerate().map(|(i, &k)| page_of_chunks(k, (i as u8).wrapping_mul(7).wrapping_add(1), seed)).collect();
     let r = catch(|| {
@@ -73,7 +73,17 @@ pub fn check_conv(type_idx: usize, addr: u16, what: usize, sizes: &[usize], sche
         }
         Ok(res) => {
             outcome = if res.is_ok() { "ok".into() } else { "err".to_string() };
-            if nack.map(|(n, _)| n <= attempts).unwrap_or(false) {
+            let b0 = bus.borrow();
+            let stray_hit = stray.map(|j| b0.chunks_seen > j).unwrap_or(false);
+            let stopped_at_stray = stray_hit && matches!(b0.sent.last(), Some(flipdot_core::Message::SendData(..))) && b0.chunks_seen == stray.unwrap() + 1;
+            drop(b0);
+            if stray_hit {
+                // a reply to a data chunk is not allowed: stopping there is fine (C11's business to demand it); if the
+                // controller goes on, the transfer it completes must still be complete, ordered and correctly counted
+                if stopped_at_stray {
+                    return ("stopped-at-stray-reply".into(), out);
+                }
+            } else if nack.map(|(n, _)| n <= attempts).unwrap_or(false) {
                 if res.is_ok() {
                     out.push(("request-acknowledged-first", "success-without-acknowledgement".into(), format!("receive request #{} was not acknowledged but the call returned Ok", nack.unwrap().0)));
                 }
@@ -92,10 +102,10 @@ pub fn check_conv(type_idx: usize, addr: u16, what: usize, sizes: &[usize], sche
     (outcome, out)
 }
 
-fn case_json(type_idx: usize, addr: u16, what: usize, sizes: &[usize], sched: usize, seed: u64, nack: Option<(usize, u8)>) -> Value {
+fn case_json(type_idx: usize, addr: u16, what: usize, sizes: &[usize], sched: usize, seed: u64, nack: Option<(usize, u8)>, stray: Option<usize>) -> Value {
     json!({"kind": "conversation", "type_index": type_idx, "sign_type": format!("{:?}", SIGN_TYPES[type_idx].0), "addr": addr, "operation": if what == 0 { "configure" } else { "send_pages" }, "what": what,
            "page_sizes_in_chunks": sizes, "schedule_index": sched, "failure_schedule": SCHEDULES[sched], "seed": seed,
-           "unacknowledged_request": nack.map(|(n, v)| { let how = ["silence", "ack of another operation", "ack from another address", "a state report"][v as usize]; json!({"request_number": n, "variant": v, "answered_with": how}) })})
+           "stray_reply_to_chunk": stray, "unacknowledged_request": nack.map(|(n, v)| { let how = ["silence", "ack of another operation", "ack from another address", "a state report"][v as usize]; json!({"request_number": n, "variant": v, "answered_with": how}) })})
 }
 
 pub fn run(ctx: &Ctx) -> Report {
@@ -110,15 +120,16 @@ pub fn run(ctx: &Ctx) -> Report {
     let lists = list_sizes(thorough);
     let addrs = [0u16, 3, 0xABCD, 0xFFFF];
     // jobs: (type, addr idx, what, list idx, sched)
-    let mut jobs: Vec<(usize, usize, usize, usize, usize, Option<(usize, u8)>)> = vec![];
+    let mut jobs: Vec<(usize, usize, usize, usize, usize, Option<(usize, u8)>, Option<usize>)> = vec![];
     for t in 0..11 {
         for a in 0..4 {
             for s in 0..4 {
-                jobs.push((t, a, 0, 0, s, None));
+                jobs.push((t, a, 0, 0, s, None, None));
+                jobs.push((t, a, 0, 0, s, None, Some(0)));
                 for n in 1..=3usize {
                     for v in 0..4u8 {
                         if n <= SCHEDULES[s].iter().position(|f| !f).map(|p| p + 1).unwrap_or(3) {
-                            jobs.push((t, a, 0, 0, s, Some((n, v))));
+                            jobs.push((t, a, 0, 0, s, Some((n, v)), None));
                         }
                     }
                 }
@@ -139,12 +150,18 @@ pub fn run(ctx: &Ctx) -> Report {
                     if heavy && !thorough && s == 2 {
                         continue;
                     }
-                    jobs.push((t, a, 1, li, s, None));
+                    jobs.push((t, a, 1, li, s, None, None));
+                    if !heavy {
+                        let total: usize = l.iter().sum();
+                        for j in 0..total.min(if li < 12 { 26 } else { 4 }) {
+                            jobs.push((t, a, 1, li, s, None, Some(j)));
+                        }
+                    }
                     if !heavy && (li < 8 || li % 5 == 0) {
                         for n in 1..=3usize {
                             for v in 0..4u8 {
                                 if n <= SCHEDULES[s].iter().position(|f| !f).map(|p| p + 1).unwrap_or(3) {
-                                    jobs.push((t, a, 1, li, s, Some((n, v))));
+                                    jobs.push((t, a, 1, li, s, Some((n, v)), None));
                                 }
                             }
                         }
@@ -156,26 +173,26 @@ pub fn run(ctx: &Ctx) -> Report {
     // heavy jobs first for load balance
     jobs.sort_by_key(|j| std::cmp::Reverse(if j.2 == 1 { lists[j.3].iter().sum::<usize>() } else { 0 }));
     let accs = par_range(jobs.len() as u64, 1, Acc::default, |acc, i| {
-        let (t, a, what, li, s, nack) = jobs[i as usize];
+        let (t, a, what, li, s, nack, stray) = jobs[i as usize];
         acc.evals += 1;
-        let (outcome, vs) = check_conv(t, addrs[a], what, &lists[li], s, seed, nack);
+        let (outcome, vs) = check_conv(t, addrs[a], what, &lists[li], s, seed, nack, stray);
         acc.outcomes.add(&format!("{}:{}{}", if what == 0 { "configure" } else { "send_pages" }, outcome, if nack.is_some() { ":unacknowledged-request" } else { "" }));
         if what == 0 || !lists[li].is_empty() {
             acc.nontrivial_fp.push(i);
         }
         for (clause, class, detail) in vs {
             let size: u64 = if what == 0 { 1 } else { lists[li].iter().sum::<usize>() as u64 };
-            acc.violation(ID, Violation::new(clause, class, detail, case_json(t, addrs[a], what, &lists[li], s, seed, nack), (size << 24) | i));
+            acc.violation(ID, Violation::new(clause, class, detail, case_json(t, addrs[a], what, &lists[li], s, seed, nack, stray), (size << 24) | i));
         }
     });
     let mut all = Acc::default();
     for a in accs {
         all.merge(ID, a);
     }
-    all.samples.push(case_json(2, 3, 1, &[6, 1], 1, seed, None));
-    all.samples.push(case_json(2, 3, 1, &[3, 3], 2, seed, Some((2, 1))));
-    all.samples.push(case_json(6, 0xABCD, 0, &[], 3, seed, None));
-    all.samples.push(case_json(2, 3, 1, &lists[lists.len() - 1], 0, seed, None));
+    all.samples.push(case_json(2, 3, 1, &[6, 1], 1, seed, None, None));
+    all.samples.push(case_json(2, 3, 1, &[3, 3], 2, seed, Some((2, 1)), None));
+    all.samples.push(case_json(6, 0xABCD, 0, &[], 3, seed, None, None));
+    all.samples.push(case_json(2, 3, 1, &lists[lists.len() - 1], 0, seed, None, None));
     let nt = rep.absorb(all);
     rep.states = nt;
     rep.transitions = rep.evaluations;
@@ -192,6 +209,6 @@ pub fn replay(_ctx: &Ctx, case: &Value) -> Result<Vec<Violation>, String> {
         return Err("unknown case kind".into());
     }
     let sizes: Vec<usize> = case["page_sizes_in_chunks"].as_array().ok_or("sizes")?.iter().map(|x| x.as_u64().unwrap() as usize).collect();
-    let (_, vs) = check_conv(case["type_index"].as_u64().ok_or("type")? as usize, case["addr"].as_u64().ok_or("addr")? as u16, case["what"].as_u64().ok_or("what")? as usize, &sizes, case["schedule_index"].as_u64().ok_or("sched")? as usize, case["seed"].as_u64().unwrap_or(0), case["unacknowledged_request"].as_object().map(|o| (o["request_number"].as_u64().unwrap() as usize, o["variant"].as_u64().unwrap() as u8)));
+    let (_, vs) = check_conv(case["type_index"].as_u64().ok_or("type")? as usize, case["addr"].as_u64().ok_or("addr")? as u16, case["what"].as_u64().ok_or("what")? as usize, &sizes, case["schedule_index"].as_u64().ok_or("sched")? as usize, case["seed"].as_u64().unwrap_or(0), case["unacknowledged_request"].as_object().map(|o| (o["request_number"].as_u64().unwrap() as usize, o["variant"].as_u64().unwrap() as u8)), case["stray_reply_to_chunk"].as_u64().map(|x| x as usize));
     Ok(vs.into_iter().map(|(c, k, d)| Violation::new(c, k, d, case.clone(), 0)).collect())
 }
